@@ -8,7 +8,23 @@ import shapes
 import vlib
 
 
-def run_rt(pid, tier, replay, emphasis, assumptions, progs=None, extra_cov=None):
+def model_check(cfgs, timeout=2400):
+    """Exhaustive TLC runs of MrpRun configurations (design level).  A violation
+    here is a problem of the specification, never a verdict about the code."""
+    states = trans = 0
+    runs = []
+    for cfg in cfgs:
+        r = vlib.run_tlc("MC_Run", "MC_Run%s.cfg" % cfg, workers=12, timeout=timeout)
+        if not r.ok:
+            raise vlib.Infra("MrpRun configuration %s violates %s (specification problem, no verdict about the code)\n%s"
+                             % (cfg, r.violation, "\n".join(st["_action"][:90] for st in r.error_trace)))
+        states += r.distinct
+        trans += r.generated
+        runs.append("MC_Run%s: %d distinct / %d generated states, depth %d, %.1fs" % (cfg, r.distinct, r.generated, r.depth, r.wall))
+    return states, trans, runs
+
+
+def run_rt(pid, tier, replay, emphasis, assumptions, progs=None, extra_cov=None, mc=()):
     t0 = time.time()
     if replay:
         bad, r = psprops.replay_spec(replay)
@@ -17,6 +33,7 @@ def run_rt(pid, tier, replay, emphasis, assumptions, progs=None, extra_cov=None)
             print("VIOLATION property=%s replay=%s" % (pid, replay))
             print("  [%s] %s" % (b["job"], b["what"]))
         return 1 if mine else 0
+    mstates, mtrans, mruns = model_check(mc)
     progs = progs or corpus(tier)
     viols, stats, _ = psprops.run_programs(progs, tier, emphasis=emphasis)
     mine = [v for v in viols if v["prop"] == pid]
@@ -25,8 +42,10 @@ def run_rt(pid, tier, replay, emphasis, assumptions, progs=None, extra_cov=None)
         print("NOTE the same runs also violate %s (reported by those checks)" % ",".join(others))
     rc, nunk, hit = vlib.conclude(pid, mine)
     cov = {
-        "states": max(1, stats["tlc_states"]),
-        "transitions": max(1, stats["tlc_generated"]),
+        "states": max(1, mstates + stats["tlc_states"]),
+        "transitions": max(1, mtrans + stats["tlc_generated"] + stats["simulation_states"]),
+        "exhaustive_model_runs": mruns,
+        "trace_monitor_states": stats["tlc_states"],
         "traces_validated_against_impl": stats["runs"],
         "samples": [stats["sample"]],
         "exhaustive": False,
@@ -36,6 +55,8 @@ def run_rt(pid, tier, replay, emphasis, assumptions, progs=None, extra_cov=None)
         "distinct_schedules": stats["distinct_scripts"],
         "trace_events": stats["events"],
         "monitor_records": stats["monitor_records"],
+        "model_behaviours_replayed": stats["model_behaviours_replayed"],
+        "model_drift": stats["model_drift"],
         "known_findings_hit": hit,
     }
     cov.update(extra_cov or {})
